@@ -567,3 +567,26 @@ def check(ctx):
         f = ctx.fn(q, TXT)
         s = ctx.sites(f, pat)
         ctx.ob("R16-d", f, f"{q} delegates to its half", len(s) == 1, detail="" if s else f"{q} is not `{pat}`", by=("delegation",))
+
+    # ---- R16-e sibling agreement of the defaults: "sending strings through TextSendStream into TextReceiveStream is the identity" and "the
+    # concatenation equals the decoding of the whole input" are stated for streams built with the same codec - in particular both built
+    # with none given.  Every class of the module declares the same default `encoding` (and `errors`), and it is a plain codec: a
+    # signature-stripping variant on one side ("utf-8-sig") decodes a leading U+FEFF away
+    decl = {}
+    for cn, vs in ctx.repo.classes.items():
+        for rel_, cd in vs:
+            if not rel_.endswith(TXT):
+                continue
+            for x in cd.body:
+                if isinstance(x, ast.AnnAssign) and isinstance(x.target, ast.Name) and x.target.id in ("encoding", "errors") and x.value is not None:
+                    decl.setdefault(x.target.id, []).append((cn, x))
+    for fld, want_n in (("encoding", 3), ("errors", 3)):
+        ds = decl.get(fld, [])
+        ctx.floor("R16-e", f"classes in streams/text.py declaring a default `{fld}`", len(ds), want_n)
+        vals = {cn: (x.value.value if isinstance(x.value, ast.Constant) else norm(x.value)) for cn, x in ds}
+        ref = vals.get("TextSendStream")
+        for cn, x in ds:
+            ok = vals[cn] == ref
+            ctx.ob("R16-e", tsi, f"{cn}.{fld} has the same default as TextSendStream.{fld}", ok, node=x, by=(repr(vals[cn]),),
+                   detail="" if ok else f"{cn} defaults to {fld}={vals[cn]!r} but TextSendStream to {ref!r}: default-constructed send and receive sides no longer "
+                                        "compose to the identity (utf-8-sig, for one, drops a leading U+FEFF)")
